@@ -38,9 +38,9 @@ func cbInt(v int64) *CB {
 	}
 	return cbNint(uint64(-1 - v))
 }
-func cbBytes(b []byte) *CB  { return &CB{Major: 2, Data: b} }
-func cbText(s string) *CB   { return &CB{Major: 3, Data: []byte(s)} }
-func cbArray(k ...*CB) *CB  { return &CB{Major: 4, Kids: k} }
+func cbBytes(b []byte) *CB      { return &CB{Major: 2, Data: b} }
+func cbText(s string) *CB       { return &CB{Major: 3, Data: []byte(s)} }
+func cbArray(k ...*CB) *CB      { return &CB{Major: 4, Kids: k} }
 func cbTag(n uint64, c *CB) *CB { return &CB{Major: 6, Arg: n, Kids: []*CB{c}} }
 func cbBool(b bool) *CB {
 	if b {
